@@ -67,6 +67,26 @@ CLAIMS = {
                 "values. It does NOT decide the exponential distribution or monotonicity (values).",
         "technique": "value-flow graph + unit inference, interval analysis, polynomial normal form against reference formulas",
     },
+    "C08": {
+        "text": "Decides: numPEs is exactly density x area x quantum efficiency; the density carries D(525 km)^2 / "
+                "D(h_det)^2 with both distances from the same function on identical arguments except the altitude, h_det "
+                "being the configured detector altitude, while the returned angle is independent of it; the range cut is "
+                "exactly 0 <= altDec <= 20 with defaults 0 and 1.5 deg and one mask for kernel inputs and outputs; the "
+                "effective angle is max(intrinsic, intrinsic x sqrt(2 ln(PE/threshold))) switched at PE/threshold > 2 "
+                "with multiplier 1 below, returned as cos(radians(.)). It does NOT decide monotonicity in the signal.",
+        "technique": "value-flow graph through the dask pipeline into the kernel + polynomial degrees, predicates, "
+                     "dependence and unit analyses",
+    },
+    "C09": {
+        "text": "Decides: dispatch covers every cloud_model variant; constant models ignore position; the map model "
+                "depends on both coordinates, searches each degree grid with the matching coordinate converted from "
+                "radians (unit + kind agreement, also that both geometry modes deliver radians), converts the map "
+                "pressure only through the standard-atmosphere function; in the kernel the cloud top acts only through "
+                "the early-exit comparison on the penultimate segment (exact zeros) and the strict per-segment mask "
+                "stored with 0, with -inf as default, and every consumer reads the masked yield; shipped maps are "
+                "audited (data audit). It does NOT decide cell containment at cell edges/poles.",
+        "technique": "value-flow graph + must/must-not dependence with flow kinds, unit inference, effect ordering; data audit",
+    },
 }
 
 NOT_APPLICABLE = {
